@@ -396,7 +396,10 @@ static int expected_code_of_exception(int cls) { return cls; }
 static bool check_tight(Case& c, const Fn* f, const CallResult& cr, const std::string& what) {
   std::string pat = f->pattern;
   hx::checked(3);
-  if (cr.crashed) { viol(c, "C20.code." + pat + ".crash", what + " died in the isolated child (" + (cr.crash_sig > 0 ? "signal " + itos(cr.crash_sig) : "sanitizer report, exit status " + itos(-cr.crash_sig)) + ")"); return false; }
+  // triage: the floating point box wrap_assign with 64 bits and wrapping overflow is the C17 finding (1ULL << 64 in the interval code)
+  std::string crash_cls;
+  if (pat.find("wrap_assign") != std::string::npos && what.compare(0, 15, "ppl_Double_Box_") == 0 && what.find(" w=64,") != std::string::npos && what.find(" o=0,") != std::string::npos) crash_cls = ":float-box+64-bit+wraps";
+  if (cr.crashed) { viol(c, "C20.code." + pat + ".crash" + crash_cls, what + " died in the isolated child (" + (cr.crash_sig > 0 ? "signal " + itos(cr.crash_sig) : "sanitizer report, exit status " + itos(-cr.crash_sig)) + ")"); return false; }
   if (cr.escaped) { viol(c, "C20.escape." + pat, what + " let an exception cross the language boundary: " + cr.exc); return false; }
   if (cr.r < 0) {
     hx::count(std::string("ret.") + code_name(cr.r));
